@@ -126,6 +126,22 @@ Needs(cfg, table, in1, in2) ==
   ELSE NeedsSE(cfg, table, PreAdapter(cfg, in1, FALSE))
 Run(cfg, table, in1, in2) == IF cfg.paired THEN RunPE(cfg, table, in1, in2) ELSE RunSE(cfg, table, in1)
 
+\* ---- the auxiliary files --rest-file and --wildcard-file (written for R1 / the single read) ----
+\* Both describe the LAST applied match of the read (not defined for linked adapters).
+\* rest: the part of the searched read that the match cuts off on the far side of the adapter (before a 5' match,
+\*       after a 3' match); a line "rest name" is written only if it is not empty.
+\* wildcards: for every N of the aligned adapter stretch, the read base at the same offset from the start of the
+\*       match (no indel bookkeeping, as documented); a line "wildcards name" for every read with a match.
+AuxPart(m) == IF m.hasF THEN m.f ELSE m.b
+AuxRest(m, searched) ==
+  IF m.hasF THEN Slice(searched, 0, m.f.rs) ELSE Slice(searched, m.b.re, Len(searched))
+RECURSIVE WildFrom(_, _, _, _)
+WildFrom(p, aseq, searched, i) ==
+  IF i >= p.ae - p.as THEN <<>>
+  ELSE (IF aseq[p.as + i + 1] = 78 /\ p.rs + i < Len(searched) THEN <<searched[p.rs + i + 1]>> ELSE <<>>)
+       \o WildFrom(p, aseq, searched, i + 1)
+AuxWild(m, aseq, searched) == WildFrom(AuxPart(m), aseq, searched, 0)
+
 \* ---- per-adapter tallies over the applied matches (C20) ----
 \* For the k-th applied match of a read: the entries it contributes, as records
 \*   [ad, end ("f" | "b"), len (removed length), errors, adj (adjacent base code or 0)]
